@@ -287,7 +287,7 @@ func (ssm *serverSessionMedia) readPacketRTPUDPPlay(payload []byte) bool {
 	ssm.bytesReceived.Add(uint64(len(payload)))
 
 	now := ssm.ss.s.timeNow()
-	ssm.ss.udpLastPacketTime.Store(now.Unix())
+	ssm.ss.udpLastPacketTime.Store(now.UnixNano())
 
 	if len(payload) == (udpMaxPayloadSize + 1) {
 		ssm.onPacketRTPDecodeError(liberrors.ErrServerRTPPacketTooBigUDP{})
@@ -301,7 +301,7 @@ func (ssm *serverSessionMedia) readPacketRTCPUDPPlay(payload []byte) bool {
 	ssm.bytesReceived.Add(uint64(len(payload)))
 
 	now := ssm.ss.s.timeNow()
-	ssm.ss.udpLastPacketTime.Store(now.Unix())
+	ssm.ss.udpLastPacketTime.Store(now.UnixNano())
 
 	if len(payload) == (udpMaxPayloadSize + 1) {
 		ssm.onPacketRTCPDecodeError(liberrors.ErrServerRTCPPacketTooBigUDP{})
@@ -315,7 +315,7 @@ func (ssm *serverSessionMedia) readPacketRTPUDPRecord(payload []byte) bool {
 	ssm.bytesReceived.Add(uint64(len(payload)))
 
 	now := ssm.ss.s.timeNow()
-	ssm.ss.udpLastPacketTime.Store(now.Unix())
+	ssm.ss.udpLastPacketTime.Store(now.UnixNano())
 
 	if len(payload) == (udpMaxPayloadSize + 1) {
 		ssm.onPacketRTPDecodeError(liberrors.ErrServerRTPPacketTooBigUDP{})
@@ -329,7 +329,7 @@ func (ssm *serverSessionMedia) readPacketRTCPUDPRecord(payload []byte) bool {
 	ssm.bytesReceived.Add(uint64(len(payload)))
 
 	now := ssm.ss.s.timeNow()
-	ssm.ss.udpLastPacketTime.Store(now.Unix())
+	ssm.ss.udpLastPacketTime.Store(now.UnixNano())
 
 	if len(payload) == (udpMaxPayloadSize + 1) {
 		ssm.onPacketRTCPDecodeError(liberrors.ErrServerRTCPPacketTooBigUDP{})
